@@ -75,7 +75,7 @@ def run(ctx):
     faces = set(anchor(f, 0, 0, 0) for f in range(6))
     # 1. top embedding, exhaustive to depth L on all six faces
     Ltop = 4 if q else 6
-    gen(faces, "tree", L=Ltop, pd=2 if q else 3)
+    gen(faces, "tree", L=Ltop, pd=1 if q else 2)
     # 2. the 26 exact points
     gen(set(), "points")
     # 3. every cell of every level at the 8 cube corners (24 chains of 31 cells)
@@ -83,15 +83,31 @@ def run(ctx):
     # 4. deep embeddings: model leaves are real leaves (anchor level 30-L), plus middle levels that
     #    straddle the 4-bit lookup-table chunks and both parities of the orientation fix-up
     Ld = 3 if q else 4
-    gen(deep_anchors(rnd, 30 - Ld, 2 if q else 8), "tree", L=Ld, pd=2)
-    mids = rnd.sample(range(5, 26), 2 if q else 8)
-    for lev in mids:
-        gen(deep_anchors(rnd, lev, 0 if q else 3), "tree", L=2 if q else 3, pd=1 if q else 2)
-    # 5. full-depth descents: random, and along the face boundaries (simulation; the invariant/emit is
-    #    evaluated on every candidate successor, so siblings are covered too)
-    nsim = 6 if q else 60
-    gen(faces, "sim", pd=1, simulate="num=%d" % nsim, depth=32, seed=ctx.seed * 10 + 1)
-    gen(faces, "edge", pd=1, simulate="num=%d" % nsim, depth=32, seed=ctx.seed * 10 + 2)
+    gen(deep_anchors(rnd, 30 - Ld, 2 if q else 8), "tree", L=Ld, pd=1 if q else 2)
+    mids = set()
+    for lev in rnd.sample(range(5, 26), 2 if q else 8):
+        mids |= deep_anchors(rnd, lev, 0 if q else 3)
+    gen(mids, "tree", L=2 if q else 3, pd=1 if q else 2)
+    # 5. full-depth descents to seed-chosen level-29 targets (random, on a face boundary, next to a face
+    #    corner): every cell on the way with all its siblings, then the four leaves below the target
+    m = (1 << 29) - 1
+    targets = set()
+    for k in range(6 if q else 36):
+        f = rnd.randrange(6)
+        kind = k % 3
+        if kind == 0:
+            targets.add(anchor(f, 29, rnd.randrange(m + 1), rnd.randrange(m + 1)))
+        elif kind == 1:
+            e = rnd.choice([0, m])
+            o = rnd.randrange(m + 1)
+            targets.add(anchor(f, 29, e, o) if rnd.random() < 0.5 else anchor(f, 29, o, e))
+        else:
+            targets.add(anchor(f, 29, rnd.choice([1, m - 1, m - 2]), rnd.choice([0, 1, m - 1])))
+    gen(targets, "chain", pd=1)
+    if not q:
+        # random walks by TLC's simulator (all candidate successors are evaluated and emitted)
+        gen(faces, "sim", pd=1, simulate="num=40", depth=32, seed=ctx.seed * 10 + 1, timeout=1500)
+        gen(faces, "edge", pd=1, simulate="num=40", depth=32, seed=ctx.seed * 10 + 2, timeout=1500)
 
     uniq = {}
     for c in cases:
